@@ -49,6 +49,9 @@ try:
     notes = open(SD + "/notes.md").read()
     m = re.search(r"([A-Za-z_][\w/]*)/zz_seeded_demo_test\.go", notes)
     ddir = None
+    if os.path.exists(SD + "/demo_dir.txt"):
+        ddir = open(SD + "/demo_dir.txt").read().strip()
+        m = None
     if m and os.path.isdir(os.path.join(W, m.group(1))):
         ddir = m.group(1)
     if ddir is None:
